@@ -45,19 +45,46 @@ OpSrcs == [q \in 1..(Len(TwoWords) * Len(Seps)) |->
              S2B("L1") \o <<10>> \o S2B("{{ a " \o w[1]) \o sp \o S2B(w[2] \o " " \o w[3] \o " }}") \o <<10>> \o S2B("{{ c }}")
              \o <<10>> \o S2B("{% zz %}")]
 AllSrc == [j \in 1..Len(Cases) |-> Lines(Cases[j])] \o OpSrcs
-Picked == 1..Len(AllSrc)
+(* source cut off at every byte: templates with multi-line tags and bodies of every kind.  Whatever the parser reports, the
+   position it gives is an anchor: the end of the input, the tokeniser's error, the (possibly cut) last token, or a tag's name *)
+TruncTpls == <<
+  <<"L1", "{% for k, v", "   in items", "%}", "  {{ v }}", "{% else %}", "none", "{% endfor %}", "z">>,
+  <<"{% set x %}", "abc{{ 1 }}", "{% endset %}{% set y = [1,", " 2] %}">>,
+  <<"{% filter up %}", "q", "{% endfilter %}">>,
+  <<"{% macro m(a,", " b) %}", "z{{ a }}", "{% endmacro %}">>,
+  <<"{% if a %}", "x{% elseif b %}", "y{% else %}", "z{% endif %}">>,
+  <<"{% block b %}", "{% embed 'e' %}", "{% block b %}i{% endblock %}", "{% endembed %}", "{% endblock %}">>,
+  <<"{% verbatim %}", "{{ v }}", "{% endverbatim %}">>,
+  <<"a{{ 'x", "y' ~ \"q#{1}\" }}b{# c", " #}">> >>
+TruncSrc(q) == Lines(TruncTpls[q])
+TruncCount == LET RECURSIVE S(_) S(q) == IF q = 0 THEN 0 ELSE S(q - 1) + Len(TruncSrc(q)) IN S(Len(TruncTpls))
+RECURSIVE TruncAt(_, _)
+TruncAt(q, r) == IF r <= Len(TruncSrc(q)) THEN SubSeq(TruncSrc(q), 1, r) ELSE TruncAt(q + 1, r - Len(TruncSrc(q)))      \* r-th prefix overall (r >= 1)
+NAll == Len(AllSrc)
+Picked == 1..(NAll + TruncCount)
 Init == GenInit(v_lvl, v_idx)
 Next == GenNext(v_lvl, v_idx, Picked, 32)
 
+TokPos(ts, q) == <<ts[q].line, ts[q].col>>
 Case(j) ==
-  LET src == AllSrc[j]
+  LET trunc == j > NAll
+      src == IF trunc THEN TruncAt(1, j - NAll) ELSE AllSrc[j]
       ts == LX!Tokens(src)
-      pr == ParseTokens2(ts) IN
-  [id |-> "C20s-" \o ToString(j), fam |-> "blocks", k |-> "parse", env |-> "core", srcs |-> ("t" :> src) @@ ("e" :> S2B("E{% block b %}{% endblock %}")),
+      pr == ParseTokens2(ts)
+      n == Len(ts) IN
+  [id |-> "C20s-" \o ToString(j), fam |-> IF trunc THEN "trunc" ELSE "blocks", k |-> "parse", env |-> "core",
+   srcs |-> ("t" :> src) @@ ("e" :> S2B("E{% block b %}{% endblock %}")),
    entry |-> "t",
    exp |-> [ok |-> pr.ok, line |-> pr.at[1], col |-> pr.at[2],
             attyp |-> IF pr.ok \/ pr.attok = 0 THEN "" ELSE ts[pr.attok].typ,
-            atname |-> IF pr.ok \/ pr.attok = 0 THEN <<>> ELSE ts[pr.attok].val]]
+            atname |-> IF pr.ok \/ pr.attok = 0 THEN <<>> ELSE ts[pr.attok].val,
+            (* anchors a cut-off source's error may name: the last token of the stream (EOF or ERROR), the possibly cut token
+               before it (white space aside) and every tag name *)
+            anchors |-> IF ~trunc THEN <<>>
+                        ELSE LET vis == {m \in 1..n : ts[m].typ # "WHITESPACE"}
+                                 prev(m) == IF \E q \in vis : q < m THEN CHOOSE q \in vis : q < m /\ \A r \in vis : r < m => r <= q ELSE 0
+                                 lastvis == prev(n) IN
+                             SetToSeq({TokPos(ts, q) : q \in {m \in vis : m = n \/ m = lastvis \/ (prev(m) # 0 /\ ts[prev(m)].typ = "TAG_OPEN")}})]]
 Out == v_lvl < 2 \/ Emit(Case(v_idx))
 (* design: a source of this family is a template exactly when every opener is closed by its own closer, innermost first;
    here: stated on the one-level cases *)
